@@ -155,8 +155,9 @@ def run(ck, facts):
     g = mac.fn("diplomat::gen_custom_type_method")
     defs = flow.defs_of(g)
     n_ident = None
+    xnames = {m_.group(1) for x in C.walk(C.fn_body(g)) if x.get("k") == "macro" for m_ in [re.search(r"extern\s+\"C\"\s+fn\s+#(\w+)", x.get("src") or "")] if m_} or {"extern_ident"}
     for n in C.walk(C.fn_body(g)):
-        if n.get("k") == "letst" and n["pat"].get("n") == "extern_ident":
+        if n.get("k") == "letst" and n["pat"].get("n") in xnames:
             n_ident = n
     if n_ident is None:
         ck.bad("R2", "macro/extern_ident", "anchor `let extern_ident` not found", C.loc(g))
@@ -164,13 +165,15 @@ def run(ck, facts):
         leaves = flow.trace(n_ident["init"], defs)
         ok, sym = only_fields(leaves, [("abi_name", AM)])
         ck.expect(ok, "R2", "macro/extern_ident", str(sorted(sym)), "the exported fn name derives from %s instead of ast::Method.abi_name" % sorted(sym), C.loc(g))
-        used = any("#extern_ident" in (x.get("src") or "") for x in C.walk(C.fn_body(g)) if x.get("k") == "macro")
+        used = any("#" + n_ident["pat"]["n"] in (x.get("src") or "") for x in C.walk(C.fn_body(g)) if x.get("k") == "macro")
         ck.expect(used, "R2", "macro/extern_ident-used", "", "the extern fn template no longer uses #extern_ident", C.loc(g))
     gb = mac.fn("diplomat::gen_bridge")
     d_ident = None
     for gcand in C.fns_inl(mac, gb):
+        # the identifier interpolated as the name of the `extern "C" fn #X ..(this: Box<..>) {}` template, whatever the local is called
+        tnames = {m_.group(1) for x in C.walk(C.fn_body(gcand)) if x.get("k") == "macro" for m_ in [re.search(r"\bfn\s+#(\w+)[^()]*\(\s*this\s*:\s*Box\s*<", x.get("src") or "")] if m_}
         for n in C.walk(C.fn_body(gcand)):
-            if n.get("k") == "letst" and n["pat"].get("n") == "destroy_ident" and d_ident is None:
+            if n.get("k") == "letst" and n["pat"].get("n") in tnames and d_ident is None:
                 d_ident = n
                 defs = flow.defs_of(gcand)
     if d_ident is None:
